@@ -33,6 +33,12 @@ class NumOps (α : Type) where
   /-- f64 `<=` -/
   le : α → α → Bool
   isNaN : α → Bool
+  /-- f64 `abs` -/
+  abs : α → α
+  /-- the literal `1e-9` (tolerance used by the registry-based simplification) -/
+  tol9 : α
+  /-- f64 `max` -/
+  max : α → α → α
 
 open NumOps
 
@@ -389,6 +395,163 @@ def evalQ (tbl : Table α) : QExpr α → Except QErr (Quantity α)
     match evalQ tbl a with
     | .ok x => checkedPower x r
     | .error e => .error e
+
+/-! ### simplification (`Quantity::full_simplify`, `full_simplify_with_registry`) -/
+
+/-- `unit::is_multiple_of` -/
+def isMultipleOf (tbl : Table α) (a b : Unit) : Option Rat :=
+  let aBase := baseRep tbl a
+  let bBase := baseRep tbl b
+  if isScalar tbl (canon tbl (Unit.div aBase bBase)) then some 1
+  else if isScalar tbl aBase then none
+  else
+    match aBase with
+    | [] => none       -- "At least one factor in non-scalar unit"
+    | aFirst :: _ =>
+      match bBase.find? (fun fb => fb.unit = aFirst.unit) with
+      | none => none
+      | some fb =>
+        let alpha := aFirst.exp / fb.exp
+        if isScalar tbl (Unit.div aBase (Unit.power bBase alpha)) then some alpha else none
+
+/-- consecutive runs of equal key, as `Itertools::chunk_by` -/
+def chunkBy {β κ : Type} [BEq κ] (key : β → κ) : List β → List (List β)
+  | [] => []
+  | x :: xs =>
+    match chunkBy key xs with
+    | [] => [[x]]
+    | (y :: ys) :: rest => if key x == key y then (x :: y :: ys) :: rest else [x] :: (y :: ys) :: rest
+    | [] :: rest => [x] :: rest
+
+/-- `Iterator::max_by` returns the *last* maximal element -/
+def maxBy {β : Type} (le : β → β → Bool) : List β → Option β
+  | [] => none
+  | x :: xs => some (xs.foldl (fun best y => if le best y then y else best) x)
+
+/-- the exponent of the first factor of the canonical base representation of a unit id
+(`removed_exponent` of heuristic 3, after the repair that canonicalises first) -/
+def removedExponent (tbl : Table α) (f : Factor) : Rat :=
+  match canonBase tbl (baseUnitAndFactor tbl tbl.length f.unit).1 with
+  | [] => 1
+  | g :: _ => g.exp
+
+def isBaseUnit (tbl : Table α) (id : Nat) : Bool := (tbl[id]?.map (·.isBase)).getD false
+
+/-- result of `full_simplify`: `none` = the `unwrap` of heuristic 3 would panic -/
+def fullSimplify (tbl : Table α) (q : Quantity α) : Option (Quantity α) :=
+  if !q.canSimplify then some q
+  else
+    -- heuristic 1
+    match convertTo tbl q [] with
+    | .ok r => some r
+    | .error _ =>
+      let unit := canon tbl q.unit
+      -- heuristic 2
+      let h2 : Option (Quantity α) :=
+        if unit.length > 1 then
+          unit.findSome? (fun f =>
+            let factorUnit : Unit := [{ f with exp := 1 }]
+            match isMultipleOf tbl unit factorUnit with
+            | some alpha =>
+              if alpha.den == 1 then
+                match convertTo tbl q (Unit.power factorUnit alpha) with
+                | .ok r => some r
+                | .error _ => none
+              else none
+            | none => none)
+        else none
+      match h2 with
+      | some r => some r
+      | none =>
+        -- heuristic 3
+        let groups := chunkBy (fun f => sortKey tbl f.unit) unit
+        let step := fun (acc : Option (α × Unit)) (group : Unit) =>
+          match acc with
+          | none => none
+          | some (factor, simplified) =>
+            match maxBy (fun f1 f2 =>
+                -- (is_base, exponent) lexicographic `<=`
+                let b1 := isBaseUnit tbl f1.unit
+                let b2 := isBaseUnit tbl f2.unit
+                if b1 != b2 then (!b1 && b2) else f1.exp ≤ f2.exp) group with
+            | none => none
+            | some rep =>
+              let target : Unit :=
+                if isScalar tbl (baseRep tbl group) then []
+                else
+                  let e := group.foldl (fun s f => s + f.exp * removedExponent tbl f / removedExponent tbl rep) 0
+                  [{ rep with exp := e }]
+              match convertTo tbl ⟨one, group, true⟩ target with
+              | .ok c => some (mul factor c.value, Unit.mul simplified target)
+              | .error _ => none
+        match groups.foldl step (some (one, [])) with
+        | none => none
+        | some (factor, simplified) => some ⟨mul q.value factor, canon tbl simplified, true⟩
+
+/-- `Op::ConvertTo` of the VM: `lhs.convert_to(rhs.unit()).map(|q| q.no_simplify().with_conversion_target(rhs))`
+(the conversion target only affects how the value is printed) -/
+def vmConvertTo (tbl : Table α) (a b : Quantity α) : Except QErr (Quantity α) :=
+  match convertTo tbl a b.unit with
+  | .ok r => .ok { r with canSimplify := false }
+  | .error e => .error e
+
+/-- registry information per table row -/
+structure RegRow where
+  isAbbreviation : Bool
+deriving Repr, Inhabited
+
+/-- insertion sort of names (byte-wise `str` order = code-point order) -/
+def sortNames (l : List (String × Nat)) : List (String × Nat) := sortBy (fun a b => !(b.1 < a.1)) l
+
+/-- `UnitRegistry::get_matching_unit_names` as unit ids: a single base unit first, then the derived
+non-abbreviation units with the same base representation, alphabetically -/
+def matchingUnits (tbl : Table α) (reg : List RegRow) (u : Unit) : List Nat :=
+  let base := baseRep tbl u
+  let baseMatch : List Nat :=
+    match base with
+    | [f] => if f.exp == 1 && isBaseUnit tbl f.unit then [f.unit] else []
+    | _ => []
+  let derived := (List.range tbl.length).filterMap (fun id =>
+    match tbl[id]?, reg[id]? with
+    | some d, some r =>
+      if !d.isBase && !r.isAbbreviation && baseRep tbl d.defn == base then some (d.name, id) else none
+    | _, _ => none)
+  baseMatch ++ (sortNames derived).map (·.2)
+
+/-- `Quantity::full_simplify_with_registry` (every registered unit is a single-factor unit, so the first
+candidate whose conversion factor matches is taken) -/
+def fullSimplifyReg (tbl : Table α) (reg : List RegRow) (q : Quantity α) : Option (Quantity α) :=
+  match fullSimplify tbl q with
+  | none => none
+  | some s =>
+    if !s.canSimplify then some s
+    else if s.unit.length ≤ 1 then some s
+    else
+      let base := baseRep tbl s.unit
+      let sf := factorOf tbl s.unit
+      let direct : Option (Quantity α) :=
+        match base with
+        | [f] =>
+          if f.exp.den == 1 && lt (NumOps.abs (sub sf one)) tol9 then
+            match convertTo tbl s base with
+            | .ok c => some c
+            | .error _ => none
+          else none
+        | _ => none
+      match direct with
+      | some c => some c
+      | none =>
+        let cands := matchingUnits tbl reg s.unit
+        match cands.findSome? (fun id =>
+            let target : Unit := [⟨id, Prefix.none, 1⟩]
+            let tf := factorOf tbl target
+            if lt (NumOps.abs (sub sf tf)) (mul tol9 (NumOps.max (NumOps.abs sf) one)) then
+              match convertTo tbl s target with
+              | .ok c => some c
+              | .error _ => none
+            else none) with
+        | some c => some c
+        | none => some s
 
 end qty
 
